@@ -82,10 +82,10 @@ type flight struct{ n atomic.Int64 }
 func (f *flight) in()  { f.n.Add(1) }
 func (f *flight) out() { f.n.Add(-1) }
 func (f *flight) drain() {
-	dl := time.Now().Add(5 * time.Second)
+	dl := time.Now().Add(60 * time.Second)
 	for f.n.Load() != 0 {
 		if time.Now().After(dl) {
-			fatal(fmt.Errorf("lower-layer calls still in flight after 5 s"))
+			fatal(fmt.Errorf("lower-layer calls still in flight after 60 s"))
 		}
 		time.Sleep(20 * time.Microsecond)
 	}
